@@ -255,6 +255,7 @@ impl Stream for Negative
 					Top::Const(i) => p.consts[i].public = false,
 					Top::Struct(i) => p.structs[i].public = false,
 					Top::Func(i) => p.funcs[i].public = false,
+					Top::Raw(_) => (),
 				}
 			}
 			what = format!("`pub` removed from {:?}", item);
@@ -263,6 +264,7 @@ impl Stream for Negative
 				Top::Const(_) => "negative:private-constant",
 				Top::Struct(_) => "negative:private-structure",
 				Top::Func(_) => "negative:private-function",
+				Top::Raw(_) => "negative:raw",
 			});
 		}
 		let files = render_files(&split);
